@@ -9,9 +9,10 @@ CONTENTS = {
     2: {"TABLE": {"BORDER": "RED", "HEADER": "BLUE:underline", "WARN": "YELLOW"}, "NAME": "MAGENTA",
         "NUMBER": "CYAN:bold", "KEYWORD": "g12", "ERROR": "(5,0,0)/BLUE", "WARN": "CYAN", "OK": "WHITE",
         "RECORD": {"NUMBER": "GREEN", "KEYWORD": "RED:crossed"}, "HDOC": {"ATTR": "RED", "FUNC_NAME": "g5", "TAG": "123"},
-        "TEXT": "", "X": {"A": "NAME:bold", "B": "YELLOW/BLUE"}},
+        "TEXT": "", "X": {"A": "NAME:bold", "B": "YELLOW/BLUE"},
+        "GHIST": {"REPO": "RED", "HASH": "g7:bold", "VERSION": "(0,5,0)", "VER_NOT_MERGED": "BLUE:blink", "COMMIT_NAME": "WHITE/RED"}},
 }
-KINDS = ['pp', 'table', 'table2', 'record', 'help', 'leadblank']
+KINDS = ['pp', 'table', 'table2', 'record', 'help', 'leadblank', 'ghist']
 
 
 def make_conf(content, nc):
@@ -67,6 +68,33 @@ class Objects:
             def method_b(self):
                 """Another one."""
         self.documented = Documented()
+        self.ghist = _make_ghist_report()
+
+
+def _make_ghist_report():
+    """git history report of a component and a parent repository (mock repositories)"""
+    import json
+    import ghmock
+    from ak.ghist import ProjectRepo, ReposCollection
+
+    class Lib(ProjectRepo):
+        pass
+
+    class App(ProjectRepo):
+        _COMPONENTS_VERSIONS_LOCATIONS = {'lib': 'DEPENDS'}
+
+        def read_components_from_file(self, v_file_path, blob):
+            d = json.load(blob.data_stream)
+            return {k: [int(x) for x in v.split('.')] for k, v in d.items()}
+    t = 'build_%d_release_1_0_success'
+    lib = ghmock.Repo('lib', {1: ([], 'BUG-7 lib a', {}), 2: ([1], 'other', {}), 3: ([2], 'BUG-7 lib b', {}), 4: ([3], 'BUG-7 lib c', {})},
+                      {t % 101: 1, t % 103: 3}, {'master': 4, 'release/1.9': 3}, time_step=600)
+    dep = lambda n: {'DEPENDS': json.dumps({'lib': '1.0.%d' % n})}
+    app = ghmock.Repo('app', {1: ([], 'BUG-7 app a', dep(101)), 2: ([1], 'other', dep(101)), 3: ([1], 'BUG-7 app side', dep(103)),
+                              4: ([2, 3], 'merge', dep(103)), 5: ([4], 'BUG-7 app late', dep(103))},
+                      {t % 202: 2, t % 204: 4}, {'master': 5, 'release/2.0': 3}, time_step=600)
+    coll = ReposCollection({'app': App('app', app, 'origin'), 'lib': Lib('lib', lib, 'origin')})
+    return coll.make_report('BUG-7')
 
 
 def painted(s):
@@ -100,6 +128,8 @@ def render(objs, kind, conf, nocolor, mode):
         res = objs.table.ch_text(colors_conf=conf, no_color=nocolor)
     elif kind == 'table2':
         res = objs.table2.ch_text(colors_conf=conf, no_color=nocolor)
+    elif kind == 'ghist':
+        res = objs.ghist.ch_text(colors_conf=conf, no_color=nocolor)
     else:
         res = objs.leadblank.ch_text(colors_conf=conf, no_color=nocolor)
     if mode == 'whole':
